@@ -12,6 +12,7 @@ ROOT = Path(__file__).resolve().parents[1]
 pid = sys.argv[1]
 only = None
 prefix = ""
+src_root = ROOT
 args = sys.argv[2:]
 while args:
     a = args.pop(0)
@@ -19,12 +20,14 @@ while args:
         only = re.compile(args.pop(0))
     elif a == "--what-prefix":
         prefix = args.pop(0)
+    elif a == "--from":          # evidence directory of a background run (vp run snapshot)
+        src_root = Path(args.pop(0))
 kf = json.loads((ROOT / "known_findings.json").read_text())
 have = {(f["property"], f["key"]) for f in kf["findings"]}
-ev = json.loads((ROOT / "evidence" / f"{pid}.json").read_text())
+ev = json.loads((src_root / "evidence" / f"{pid}.json").read_text())
 keys = ev["coverage"]["unknown_violation_keys"]
 replays = {}
-for f in glob.glob(str(ROOT / "evidence" / "replays" / pid / "*.json")):
+for f in glob.glob(str(src_root / "evidence" / "replays" / pid / "*.json")):
     r = json.loads(Path(f).read_text())
     replays.setdefault(r["key"], r)
 n = 0
